@@ -684,7 +684,7 @@ Definition bb_ok (x : string * list (string * Z) * list Z * nat * (string * list
             d = r[trip]
             if d is None:
                 continue
-            if trip == "as_code" and kinds:
+            if trip == "as_code" and kinds and ("instruction" in d.get("what", "") or "does not execute" in d.get("what", "")):
                 key = "C18:Instruction._param_repr:ndarray-" + ("not-executable" if "does not execute" in d.get("what", "") else "lossy")
             else:
                 key = "C18:%s:%s" % ({"blackbird": "to_blackbird_code/loads_blackbird", "as_code": "as_code/exec",
